@@ -49,11 +49,13 @@ Fixpoint pwf (t : Parser.token) : bool :=
   end
 with pwf_block (b : Parser.block_t) : bool :=
   match b with
-  | Parser.Block _ inner _ => (fix go (l : list Parser.token) : bool := match l with [] => true | t :: r => pwf t && go r end) inner
+  | Parser.Block _ inner _ => (fix go (l : list Parser.token) : bool := match l with [] => true | t :: r => pwf t && negb (value_shape t) && go r end) inner
   end.
 
+(* a statement: the shapes above, and not a bare config block or expression (those only occur as values) *)
+Definition stmt_shaped (t : Parser.token) : bool := pwf t && negb (value_shape t).
 Definition parser_shaped (toks : list Parser.token) : bool :=
-  wf_tokens (project_tokens toks) && forallb pwf toks && ws_clean (Display.a_tokens toks).
+  forallb stmt_shaped toks && ws_clean (Display.a_tokens toks).
 
 
 (* the same on a source text: None = the file has parse diagnostics (the formatter is not run) *)
